@@ -21,7 +21,7 @@ func checkC18(c *Ctx) {
 	c.Level = "model_checking"
 	maxRune, maxAdds := 6, 3
 	if !c.Quick() {
-		maxRune, maxAdds = 7, 4
+		maxRune, maxAdds = 9, 4
 	}
 	c.Set("rule", fmt.Sprintf("Ranges.tla transcribes AddRange case by case; TLC explores EVERY sequence of up to %d closed intervals over the universe 0..%d (single runes, adjacent, nested, overlapping, duplicate) and checks sorted/disjoint/non-empty, exact union, refinement and coarsest-partition after every insertion; the model's outcome table (set of added intervals -> classes) is replayed on the real DisjunctRangeSet in every insertion order (in-package test through go test -overlay), and random sequences over the whole rune range are compared with an end-point construction. distinct_nontrivial counts distinct interval sets of the table with >= 2 intervals", maxAdds, maxRune))
 	cfg := fmt.Sprintf("SPECIFICATION Spec\nCONSTANTS\n  MaxRune = %d\n  MaxAdds = %d\nINVARIANT SortedDisjointNonEmpty\nINVARIANT ExactUnion\nINVARIANT Refines\nINVARIANT Coarsest\nINVARIANT LoopSane\nINVARIANT DumpIdle\nCHECK_DEADLOCK FALSE\n", maxRune, maxAdds)
@@ -64,7 +64,7 @@ func checkC18(c *Ctx) {
 	tpath := filepath.Join(c.Scratch, "ranges_table.ndjson")
 	mustWrite(tpath, table.Bytes())
 	res := c.overlayTest("internal/lexer/items", map[string]string{"items_ranges_verif_test.go": "zz_ranges_verif_test.go"}, "TestVerifRanges",
-		[]string{"VERIF_RANGES_TABLE=" + tpath, fmt.Sprintf("VERIF_RANGES_RANDOM=%d", c.pick(100000, 5000000)), fmt.Sprintf("VERIF_SEED=%d", c.Seed)}, 30*time.Minute)
+		[]string{"VERIF_RANGES_TABLE=" + tpath, fmt.Sprintf("VERIF_RANGES_RANDOM=%d", c.pick(100000, 30000000)), fmt.Sprintf("VERIF_SEED=%d", c.Seed)}, 30*time.Minute)
 	for _, st := range linesWith(res.Out, "VERIF-STATS") {
 		var entries, runs, random, mism int
 		fmt.Sscanf(st, "entries=%d runs=%d random=%d mismatches=%d", &entries, &runs, &random, &mism)
